@@ -186,6 +186,7 @@ class Cfg:
         self.wait = 1; self.dense = 0; self.mode = 1; self.angle = 0; self.nblk = 1
         self.min = 0.0; self.max = 0.0; self.start = 0; self.end = 36000
         self.lclock = 1; self.tsfirst = 0; self.pktcb = 0; self.tz = 0; self.user = 0; self.tail = 0
+        self.tzd = None          # name of a zone with daylight saving (tzrules.ZONES): the TZD line goes in front of the D line, tz is its standard offset
         self.from_file = 0  # config_from_file with a missing angle file (CF directive)
         self.tf = None      # ENABLE_TRANSFORM builds: (x, y, z, roll, pitch, yaw) as binary32 values
         self.__dict__.update(kw)
